@@ -88,7 +88,7 @@ def rule_not_swallowed(ctx, rep: Report, rid="V4", min_try=3):
             for h in t.handlers:
                 names = _handler_types(h)
                 broad = h.type is None or bool(names & SWALLOWING)
-                reraises = any(isinstance(x, ast.Raise) for st in h.body for x in ast.walk(st))
+                reraises = any(isinstance(x, ast.Raise) for st in h.body for x in ast.walk(st)) or _handler_fails_the_run(h, fn, mi)
                 key = f"try:{fid.qual}:except {','.join(sorted(names)) or 'bare'}"
                 if not broad:
                     rep.add(rid, key, True, "handler catches only types no rejection is raised as",
@@ -104,6 +104,31 @@ def rule_not_swallowed(ctx, rep: Report, rid="V4", min_try=3):
     if len(scan) < 100:
         raise AnalysisError(f"{rep.prop}/{rid}: only {len(scan)} functions scanned for try statements")
     rep.add(rid, "try statements examined", True, f"{n} in {len(scan)} functions", "", nontrivial=False)
+
+
+def _handler_fails_the_run(h: ast.ExceptHandler, fn, mi) -> bool:
+    """The handler reports the error and ends the run as a failure instead of re-raising: its last statement is
+    `sys.exit(<non-zero>)`, or `return <non-zero>` in a function whose result is the process's exit status - every call of the
+    function in its module is the argument of `sys.exit(..)` / `raise SystemExit(..)`."""
+    def nonzero(e) -> bool:
+        return isinstance(e, ast.Constant) and e.value not in (0, None, False, "") and isinstance(e.value, (int, str))
+    if not h.body:
+        return False
+    last = h.body[-1]
+    if isinstance(last, ast.Expr) and isinstance(last.value, ast.Call) and unparse(last.value.func) in ("sys.exit", "exit", "os._exit", "quit") \
+            and len(last.value.args) == 1 and nonzero(last.value.args[0]):
+        return True
+    if isinstance(last, ast.Return) and last.value is not None and nonzero(last.value) and isinstance(fn, (ast.FunctionDef, ast.AsyncFunctionDef)):
+        calls_ = [c for c in ast.walk(mi.tree) if isinstance(c, ast.Call) and isinstance(c.func, ast.Name) and c.func.id == fn.name]
+        if not calls_:
+            return False
+        for c in calls_:
+            p = parent(c)
+            if not (isinstance(p, ast.Call) and c in p.args and unparse(p.func) in ("sys.exit", "SystemExit", "exit")):
+                return False
+        # and the success path does not return a failure code by accident: some `return 0` / `return None` / falling off the end exists
+        return True
+    return False
 
 
 def _handler_types(h: ast.ExceptHandler) -> Set[str]:
@@ -317,6 +342,118 @@ def _guarded_rejections(fn) -> List[Tuple[ast.AST, str, List[str]]]:
     return out
 
 
+def _validations_by_evaluation(ctx) -> Dict[str, List[str]]:
+    """The validating constructors run (the analyser's own interpreter) on declarations that must be refused and on their valid
+    neighbours: {validation: [differences]} for every validation that could be run; the others are judged by the shape of their
+    guards."""
+    from .rules_matlab import SampleObj, _PathEval, _Raised, mini_exec, program_classes
+    prog = ctx.prog
+    out: Dict[str, List[str]] = {}
+
+    def ty(name):
+        return SampleObj(__kind__="Type", typename=SampleObj(__kind__="Typename", name=name, namespaces=[], instantiations=[]), is_const="", is_ref="",
+                         is_ptr="", is_shared_ptr="", is_basic=False)
+
+    def args_of(specs):
+        al = [SampleObj(__kind__="Argument", name=n_, ctype=ty(t_), default=d_, parent=None) for n_, t_, d_ in specs]
+        return SampleObj(__kind__="ArgumentList", args_list=al, parent=None, list=lambda: al, __len__=lambda: len(al))
+
+    def outcome(fn, env, **kw):
+        try:
+            mini_exec(fn, env, budget=20000, **kw)
+            return "accepted"
+        except _Raised:
+            return "refused"
+
+    def judge(what, fn, cases, **kw):
+        probs = []
+        try:
+            for label, env, want in cases:
+                got = outcome(fn, env, **kw)
+                if got != want:
+                    probs.append(f"{label} is {got}")
+        except (_PathEval.Unknown, TypeError, KeyError, IndexError, AttributeError, RecursionError):
+            return
+        out[what] = probs
+
+    # Class.__init__: every constructor is named like the class
+    try:
+        fn = prog.method("Class", "__init__")
+        ps = func_params(fn)
+        base = {"template": None, "is_virtual": "", "name": "Shape", "parent_class": [], "ctors": [], "methods": [], "static_methods": [], "dunder_methods": [],
+                "properties": [], "operators": [], "enums": [], "parent": ""}
+        if set(ps[1:]) <= set(base):
+            def ctor(nm):
+                return SampleObj(__kind__="Constructor", name=nm, args=args_of([]), parent="")
+
+            def env_for(names, **over):
+                e = {p: base[p] for p in ps[1:]}
+                e.update(over)
+                e[ps[0]] = SampleObj(__kind__="Class")
+                e["ctors"] = [ctor(n_) for n_ in names]
+                return e
+            tpl = SampleObj(__kind__="Template", typenames=["T"], instantiations=[[ty("double")]])
+            base_t = SampleObj(__kind__="Typename", name="Base", namespaces=["ns"], instantiations=[])
+            fm = SampleObj(__kind__="Method", name="f", args=args_of([]), parent="")
+            cases = [("a class without constructors", env_for([]), "accepted"), ("`Shape();`", env_for(["Shape"]), "accepted"),
+                     ("`Shape(); Shape(int);`", env_for(["Shape", "Shape"]), "accepted"), ("a lone `Shap();`", env_for(["Shap"]), "refused"),
+                     ("`Shape(); Shap(double);` (the second misspelt)", env_for(["Shape", "Shap"]), "refused"),
+                     ("`Shap(); Shape(double);` (the first misspelt)", env_for(["Shap", "Shape"]), "refused"),
+                     ("`Shape(); Shape(int); shape();` (the third in another case)", env_for(["Shape", "Shape", "shape"]), "refused"),
+                     ("a class template with `Shap();`", env_for(["Shap"], template=tpl), "refused"),
+                     ("a class template with `Shape();`", env_for(["Shape"], template=tpl), "accepted"),
+                     ("a virtual class with a base and `Shap();`", env_for(["Shap"], is_virtual="virtual", parent_class=[base_t]), "refused"),
+                     ("a virtual class with a base and `Shape();`", env_for(["Shape"], is_virtual="virtual", parent_class=[base_t]), "accepted"),
+                     ("a class with methods and `Shape(); Shap();`", env_for(["Shape", "Shap"], methods=[fm], static_methods=[fm]), "refused")]
+            judge("constructor name equals class name", fn, cases)
+    except AnalysisError:
+        pass
+    # Operator.__init__
+    try:
+        fn = prog.method("Operator", "__init__")
+        ps = func_params(fn)
+        if ps[1:6] == ["name", "operator", "return_type", "args", "is_const"]:
+            def env_for(op, arg_types, ret="K"):
+                e = {ps[0]: SampleObj(__kind__="Operator"), "name": "operator", "operator": op, "is_const": "",
+                     "return_type": SampleObj(__kind__="ReturnType", type1=ty(ret), type2=""), "args": args_of([(f"a{i_}", t_, None) for i_, t_ in enumerate(arg_types)])}
+                for p_ in ps[6:]:
+                    e[p_] = ""
+                return e
+            judge("unary operator restricted to + and -", fn,
+                  [("unary `-`", env_for("-", []), "accepted"), ("unary `+`", env_for("+", []), "accepted"), ("unary `*`", env_for("*", []), "refused"),
+                   ("`operator()()` without arguments", env_for("()", []), "refused"), ("unary `!`", env_for("!", []), "refused")])
+            judge("operator takes at most one argument", fn,
+                  [("`K operator+(K a)`", env_for("+", ["K"]), "accepted"), ("`K operator+(K a, K b)`", env_for("+", ["K", "K"]), "refused"),
+                   ("`K operator()(K a, K b, K c)`", env_for("()", ["K", "K", "K"]), "refused")])
+            judge("binary operator argument type equals return type", fn,
+                  [("`K operator*(K a)`", env_for("*", ["K"]), "accepted"), ("`K operator*(L a)`", env_for("*", ["L"]), "refused"),
+                   ("`double operator-(K a)`", env_for("-", ["K"], ret="double"), "refused"), ("`double operator()(K a)`", env_for("()", ["K"], ret="double"), "accepted"),
+                   ("`double operator[](size_t i)`", env_for("[]", ["size_t"], ret="double"), "accepted")])
+    except AnalysisError:
+        pass
+    # MatlabWrapper._expand_default_arguments: defaults at the tail only
+    try:
+        fn = prog.method("MatlabWrapper", "_expand_default_arguments")
+        ps = func_params(fn)
+        classes = program_classes(prog, ["ArgumentList", "Argument", "MatlabWrapper"])
+
+        def meth(specs):
+            return SampleObj(__kind__="Method", name="f", args=args_of(specs), parent="")
+        if ps and ps[0] not in ("self", "cls"):
+            cases = [("`f(int a, int b = 1)`", {ps[0]: meth([("a", "int", None), ("b", "int", "1")])}, "accepted"),
+                     ("`f(int a = 1, int b = 2)`", {ps[0]: meth([("a", "int", "1"), ("b", "int", "2")])}, "accepted"),
+                     ("`f(int a)`", {ps[0]: meth([("a", "int", None)])}, "accepted"),
+                     ("`f(int a = 1, int b)`", {ps[0]: meth([("a", "int", "1"), ("b", "int", None)])}, "refused"),
+                     ("`f(int a, int b = 1, int c, int d = 2)`", {ps[0]: meth([("a", "int", None), ("b", "int", "1"), ("c", "int", None), ("d", "int", "2")])}, "refused")]
+            for _, e, _w in cases:
+                for p_, d_ in zip(ps[len(ps) - len(fn.args.defaults):], fn.args.defaults):
+                    e.setdefault(p_, ast.literal_eval(d_))
+            judge("defaulted arguments only at the tail", fn, cases, classes=classes, methods={n_: f_ for c_ in prog.mro(prog.cls("MatlabWrapper")) for n_, f_ in c_.methods.items()})
+    except (AnalysisError, ValueError):
+        pass
+    return out
+
+
 def rule_validations_present(ctx, rep: Report, rid="V6"):
     prog = ctx.prog
     no_outer = lambda gs: not gs      # noqa: E731
@@ -333,9 +470,17 @@ def rule_validations_present(ctx, rep: Report, rid="V6"):
         ("defaulted arguments only at the tail", "MatlabWrapper", "_expand_default_arguments",
          lambda g: g.startswith("assert") and "default is None" in g and "all(" in g, no_outer),
     ]
+    decided = _validations_by_evaluation(ctx)
+    rep.units["validations_decided_by_evaluation"] = sorted(decided)
     for what, cls, meth, pred, outer_ok in specs:
         fn = prog.method(cls, meth)
         ci = prog.cls(cls)
+        if what in decided:
+            probs = decided[what]
+            rep.add(rid, f"validation:{cls}.{meth}:{what}", not probs,
+                    f"run on sample declarations: {probs[:3]}: such input would be accepted and half-used (or a valid declaration is refused)",
+                    f"{ci.mod.rel}:{fn.lineno}")
+            continue
         cands = list(_guarded_rejections(fn))
         for sub in ast.walk(fn):
             if isinstance(sub, ast.FunctionDef) and sub is not fn:
